@@ -31,7 +31,7 @@ def check(run):
     exe_race = vlib.build_harness(run, race=True)
     rnd = random.Random(run.seed)
     U = vlib.universe(run, ECOS)
-    acc = vlib.accepted(run, exe, U)
+    acc = vlib.accepted(run, exe, U, regex_extra=100, rnd=rnd)
     rtexts = {e: [] for e in ECOS}
     for j in check_c02.gen_round(run, exe, {e: acc[e] for e in check_c02.ECOS}, rnd, 0, 0): rtexts[j["eco"]].append(j["text"])
     for v in check_c05.vectors(run): rtexts[v["eco"]].append(v["text"])
